@@ -11,6 +11,9 @@ use serde_json::{json, Value};
 pub enum Op {
     /// setup with problem i (0 or 1)
     Setup(usize),
+    /// setup with the problem-definition object of problem i (the same `Arc` as before when it
+    /// was installed earlier) and a new validity checker for the world of problem j
+    SetupMixed(usize, usize),
     /// PRM only
     SetPd(usize),
     /// PRM only
@@ -22,13 +25,16 @@ impl Op {
     pub fn to_json(&self) -> Value {
         match self {
             Op::Setup(i) => json!({"setup": i}),
+            Op::SetupMixed(i, j) => json!({"setup_mixed": [i, j]}),
             Op::SetPd(i) => json!({"set_pd": i}),
             Op::Construct => json!("construct"),
             Op::Solve(n) => json!({"solve": n}),
         }
     }
     pub fn from_json(v: &Value) -> Op {
-        if let Some(i) = v.get("setup") {
+        if let Some(a) = v.get("setup_mixed") {
+            Op::SetupMixed(a[0].as_u64().unwrap() as usize, a[1].as_u64().unwrap() as usize)
+        } else if let Some(i) = v.get("setup") {
             Op::Setup(i.as_u64().unwrap() as usize)
         } else if let Some(i) = v.get("set_pd") {
             Op::SetPd(i.as_u64().unwrap() as usize)
@@ -41,6 +47,7 @@ impl Op {
     pub fn short(&self) -> String {
         match self {
             Op::Setup(i) => format!("setup(P{})", i + 1),
+            Op::SetupMixed(i, j) => format!("setup(P{} object, checker of world {})", i + 1, j + 1),
             Op::SetPd(i) => format!("set_pd(P{})", i + 1),
             Op::Construct => "construct".into(),
             Op::Solve(n) => format!("solve({n})"),
@@ -117,6 +124,8 @@ pub fn run_history<K: Kit>(kit: &K, h: &History, keep_events: bool, budget: u64)
     let mut recs = vec![];
     let mut pd: Option<usize> = None;
     let mut checker: Option<usize> = None;
+    // problem-definition objects are created once per problem and re-used (same Arc)
+    let mut objects: Vec<Option<crate::drv::Installed<K>>> = vec![None; h.problems.len()];
     for op in &h.ops {
         let before_nonempty = matches!(d.snapshot(), Snap::Roadmap(r) if !r.is_empty());
         let (s0, q0) = {
@@ -126,17 +135,37 @@ pub fn run_history<K: Kit>(kit: &K, h: &History, keep_events: bool, budget: u64)
         let (pd_at, ck_at) = (pd, checker);
         let res = match op {
             Op::Setup(i) => {
-                let inst = d.install_starts(&h.problems[*i], mode(), h.starts_override.clone())?;
+                let inst = match &objects[*i] {
+                    Some(prev) => d.reinstall(prev, &h.problems[*i])?,
+                    None => d.install_starts(&h.problems[*i], mode(), h.starts_override.clone())?,
+                };
+                objects[*i] = Some(inst.clone());
                 let r = d.setup(inst);
                 pd = Some(*i);
                 checker = Some(*i);
+                r
+            }
+            Op::SetupMixed(i, j) => {
+                let base = match &objects[*i] {
+                    Some(prev) => prev.clone(),
+                    None => d.install_starts(&h.problems[*i], mode(), h.starts_override.clone())?,
+                };
+                let inst = d.reinstall(&base, &h.problems[*j])?;
+                objects[*i] = Some(inst.clone());
+                let r = d.setup(inst);
+                pd = Some(*i);
+                checker = Some(*j);
                 r
             }
             Op::SetPd(i) => {
                 if h.params.kind != PKind::Prm {
                     continue;
                 }
-                let inst = d.install_starts(&h.problems[*i], mode(), h.starts_override.clone())?;
+                let inst = match &objects[*i] {
+                    Some(prev) => prev.clone(),
+                    None => d.install_starts(&h.problems[*i], mode(), h.starts_override.clone())?,
+                };
+                objects[*i] = Some(inst.clone());
                 let r = d.set_problem_definition(inst);
                 pd = Some(*i);
                 r
@@ -154,7 +183,7 @@ pub fn run_history<K: Kit>(kit: &K, h: &History, keep_events: bool, budget: u64)
             (l.n_uniform + l.n_goal_sample, l.n_valid)
         };
         let (pd_rec, ck_rec) = match op {
-            Op::Setup(_) | Op::SetPd(_) => (pd, checker),
+            Op::Setup(_) | Op::SetupMixed(..) | Op::SetPd(_) => (pd, checker),
             _ => (pd_at, ck_at),
         };
         let snap = d.snapshot();
